@@ -38,7 +38,7 @@ func NewTable(rows [][]string) *Table {
 // GetRow returns the row data by row index (started with 0). It will return
 // nil if not found.
 func (t *Table) GetRow(row int) []string {
-	if row >= len(t.Rows) {
+	if row < 0 || row >= len(t.Rows) {
 		return nil
 	}
 	return t.Rows[row]
